@@ -249,7 +249,7 @@ impl ReadBuf {
             unsafe {
                 ptr.cast::<u8>().add(start).copy_from(start_ptr, to_copy);
             }
-        } else if start != 0 && end != 0 {
+        } else if start != 0 || end != 0 {
             panic!("attempting to remove range from empty buffer");
         }
     }
